@@ -241,20 +241,3 @@ Proof.
   destruct n as [|n]; [reflexivity|].
   destruct (apply_ops ops st) as [st1 rs] eqn:E. cbn [fst snd] in *. apply IH. lia.
 Qed.
-
-Lemma apply_ops_gets ops st : forallb is_get ops = true -> fst (apply_ops ops st) = st.
-Proof.
-  induction ops as [|o ops IH]; [reflexivity|]. cbn [forallb]. intros H. apply andb_true_iff in H as [Ho Hr].
-  cbn [apply_ops]. destruct o; try discriminate; cbn [apply_op];
-    specialize (IH Hr); destruct (apply_ops ops st) as [st2 vs]; cbn [fst] in *; exact IH.
-Qed.
-
-Lemma run_act_ro {A} (m : act A) st n :
-  n <= ro_calls m st -> fst (fst (run_act (Some n) st m)) = st.
-Proof.
-  revert st n. induction m as [a|ops k IH]; intros st n Hn; simpl in *; [reflexivity|].
-  destruct n as [|n]; [reflexivity|].
-  destruct (forallb is_get ops) eqn:G; [|lia].
-  pose proof (apply_ops_gets ops st G) as F.
-  destruct (apply_ops ops st) as [st1 rs] eqn:E. cbn [fst snd] in *. subst st1. apply IH. lia.
-Qed.
